@@ -782,7 +782,9 @@ class Bin(Factory, Container):
         # trivial case
         if low is None and high is None:
             bw = self.bin_width()
-            return np.arange(self.low + bw / 2.0, self.high + bw / 2.0, bw)
+            # one centre per bin, by index like the general branch below (np.arange over a float step
+            # can overshoot: Bin(7, 0, 1.005) got 8 centres)
+            return self.low + (np.arange(len(self.values)) + 0.5) * bw
         # catch weird cases
         if low is not None and high is not None:
             if low > high:
